@@ -42,21 +42,22 @@ type respSpec struct {
 }
 
 type hitCase struct {
-	TargeterErr  string     `json:"targeter_err,omitempty"` // non-empty: the targeter fails with this text
-	Method       string     `json:"method"`
-	URL          string     `json:"url"`
-	Body         []byte     `json:"body"`
-	Header       []hdrEntry `json:"header"`
-	MaxBody      int64      `json:"max_body"`
-	Chunked      bool       `json:"chunked"`
-	RedirSet     bool       `json:"redirects_set"`
-	Redirects    int        `json:"redirects"`
-	Name         string     `json:"name"`
-	Seq          uint64     `json:"seq"`
-	Hops         []respSpec `json:"hops"`          // redirect responses (Location header included)
-	TransportErr string     `json:"transport_err"` // non-empty: the last RoundTrip fails with this text
-	Final        *respSpec  `json:"final,omitempty"`
-	Chunks       []int      `json:"chunks"`
+	TargeterErr   string     `json:"targeter_err,omitempty"`   // non-empty: the targeter fails with this text
+	TargeterFills bool       `json:"targeter_fills,omitempty"` // the failing targeter has already written the target
+	Method        string     `json:"method"`
+	URL           string     `json:"url"`
+	Body          []byte     `json:"body"`
+	Header        []hdrEntry `json:"header"`
+	MaxBody       int64      `json:"max_body"`
+	Chunked       bool       `json:"chunked"`
+	RedirSet      bool       `json:"redirects_set"`
+	Redirects     int        `json:"redirects"`
+	Name          string     `json:"name"`
+	Seq           uint64     `json:"seq"`
+	Hops          []respSpec `json:"hops"`          // redirect responses (Location header included)
+	TransportErr  string     `json:"transport_err"` // non-empty: the last RoundTrip fails with this text
+	Final         *respSpec  `json:"final,omitempty"`
+	Chunks        []int      `json:"chunks"`
 }
 
 // ---------- fakes ----------
@@ -344,7 +345,16 @@ type hitOut struct {
 	lastSpec *respSpec
 }
 
-func runHit(c *hitCase) *hitOut {
+// session: one attacker and one attack shared by a sequence of hits (state carried from hit
+// to hit: the sequence counter, the client, a sticky stop flag).
+type session struct {
+	atk     *vegeta.Attacker
+	va      *vegeta.VerifAttack
+	ft      *fakeTransport
+	stopped bool
+}
+
+func newSession(c *hitCase) *session {
 	ft := &fakeTransport{c: c}
 	opts := []func(*vegeta.Attacker){
 		vegeta.Client(&http.Client{Transport: ft}),
@@ -354,10 +364,16 @@ func runHit(c *hitCase) *hitOut {
 	if c.RedirSet {
 		opts = append(opts, vegeta.Redirects(c.Redirects))
 	}
-	atk := vegeta.NewAttacker(opts...)
-	va := vegeta.VerifNewAttack(c.Name, time.Now(), c.Seq)
+	return &session{atk: vegeta.NewAttacker(opts...), va: vegeta.VerifNewAttack(c.Name, time.Now(), c.Seq), ft: ft}
+}
+
+func runHit(c *hitCase) *hitOut { return newSession(c).hit(c) }
+
+func (ss *session) hit(c *hitCase) *hitOut {
+	ft := ss.ft
+	ft.c, ft.calls, ft.first, ft.bodies = c, 0, nil, nil
 	tr := func(t *vegeta.Target) error {
-		if c.TargeterErr != "" {
+		if c.TargeterErr != "" && !c.TargeterFills {
 			return errors.New(c.TargeterErr)
 		}
 		t.Method, t.URL = c.Method, c.URL
@@ -365,18 +381,26 @@ func runHit(c *hitCase) *hitOut {
 		if c.Header != nil {
 			t.Header = mkHeader(c.Header)
 		}
+		if c.TargeterErr != "" {
+			return errors.New(c.TargeterErr)
+		}
 		return nil
 	}
-	o := &hitOut{ft: ft}
-	o.panicked, o.panicMsg = kit.Recover(func() { o.res = atk.VerifHit(tr, va) })
-	o.stopped = atk.VerifStopped()
+	o := &hitOut{}
+	o.panicked, o.panicMsg = kit.Recover(func() { o.res = ss.atk.VerifHit(tr, ss.va) })
+	snap := *ft
+	o.ft = &snap
+	after := ss.atk.VerifStopped()
+	// the stop flag is sticky: report whether THIS hit stopped the attack
+	o.stopped = after && (!ss.stopped || c.TargeterErr != "")
+	ss.stopped = after
 	if o.panicked || o.res == nil {
 		return o
 	}
 	// which response did hit obtain? the last one the transport produced, unless the
 	// client turned it into an error (redirect policy) or the last call failed.
-	if n := len(ft.bodies); n > 0 && ft.bodies[n-1] != nil {
-		last := ft.bodies[n-1]
+	if n := len(snap.bodies); n > 0 && snap.bodies[n-1] != nil {
+		last := snap.bodies[n-1]
 		isHop := n-1 < len(c.Hops)
 		policyStop := isHop && o.res.Code == 0 && strings.HasSuffix(o.res.Error, " redirects")
 		if !policyStop {
@@ -439,9 +463,20 @@ func inDomain(c *hitCase) bool {
 	return c.Final == nil || ok(c.Final)
 }
 
-func oracle(s *kit.Summary, c *hitCase, o *hitOut) {
+// seqInput is the replay input: the hits made so far on one attacker/attack, the last one failing.
+type seqInput struct {
+	Hits []*hitCase `json:"hits"`
+}
+
+func oracle(s *kit.Summary, c *hitCase, o *hitOut) { oracleSeq(s, []*hitCase{c}, c, o) }
+
+func oracleSeq(s *kit.Summary, sofar []*hitCase, c *hitCase, o *hitOut) {
 	viol := func(kind, what, exp, obs string, key map[string]interface{}) {
-		s.Violate(kit.Violation{Kind: kind, What: what, Input: c, Expected: exp, Observed: obs, Key: key})
+		if key == nil {
+			key = map[string]interface{}{}
+		}
+		key["hit_in_sequence"] = len(sofar)
+		s.Violate(kit.Violation{Kind: kind, What: what, Input: seqInput{sofar}, Expected: exp, Observed: obs, Key: key})
 	}
 	if o.panicked {
 		viol("hit_panic", "hit panicked", "", o.panicMsg, nil)
@@ -708,6 +743,7 @@ func genCase(r *kit.Rng) *hitCase {
 	c := &hitCase{}
 	if r.Chance(0.02) {
 		c.TargeterErr = "no targets to attack"
+		c.TargeterFills = r.Chance(0.5)
 	}
 	c.Method = methods[r.Pick(len(methods))]
 	if r.Chance(0.03) {
@@ -858,25 +894,39 @@ func classify(s *kit.Summary, c *hitCase, o *hitOut) {
 }
 
 func runC06(c *run.Ctx, s *kit.Summary) {
-	s.Rule = "targets: methods (incl. lower-case, custom, rare invalid/empty), URLs (rare unparsable), header maps with keys in arbitrary case (Host/host/HOST, injected-header names) and 0..3 values, bodies 0..21000 bytes; config: max-body in {-1,0,len-1,len,len+1,random,huge,-2}, chunked, Redirects(n) in {-1,0,1,2,3,10,-2,unset}, name, seq up to 2^64-1; exchange: 0..3 (rarely 9..12) redirect hops, final response status 100..599 (rare out-of-range) with the transport's status text, or transport error; body read error after k bytes; chunk-size oracle and EOF-with-data variants; non-trivial = distinct case whose request reached the transport"
+	s.Rule = "targets: methods (incl. lower-case, custom, rare invalid/empty), URLs (rare unparsable), header maps with keys in arbitrary case (Host/host/HOST, injected-header names) and 0..3 values, bodies 0..21000 bytes; config: max-body in {-1,0,len-1,len,len+1,random,huge,-2}, chunked, Redirects(n) in {-1,0,1,2,3,10,-2,unset}, name, seq up to 2^64-1; exchange: 0..3 (rarely 9..12) redirect hops, final response status 100..599 (rare out-of-range) with the transport's status text, or transport error; body read error after k bytes; chunk-size oracle and EOF-with-data variants; 30% of the hits in sequences of 2..6 on one attacker/attack (shared counter incl. wrap, sticky stop, empty after non-empty fields); fixed bodies of 65535..65537, 70000 and 2^20+3 bytes captured/drained/failing in the drain; 8 end-to-end runs of the vegeta command against a local server; non-trivial = distinct case whose request reached the transport"
 	if c.Replay != "" {
 		raw, err := os.ReadFile(c.Replay)
 		if err != nil {
 			panic(err)
 		}
 		var rec struct {
-			Input hitCase `json:"input"`
+			Input json.RawMessage `json:"input"`
 		}
 		if err := json.Unmarshal(raw, &rec); err != nil {
 			panic(err)
 		}
-		hc := &rec.Input
-		o := runHit(hc)
+		if strings.Contains(string(rec.Input), `"e2e"`) {
+			runE2E(c, s)
+			return
+		}
+		var in seqInput
+		if err := json.Unmarshal(rec.Input, &in); err != nil || len(in.Hits) == 0 {
+			var one hitCase
+			if err := json.Unmarshal(rec.Input, &one); err != nil {
+				panic(err)
+			}
+			in.Hits = []*hitCase{&one}
+		}
 		st := &kit.Stream{Name: "c06.hit"}
-		st.Add(opLine(hc), implLine(hc, o))
+		ss := newSession(in.Hits[0])
+		for i, hc := range in.Hits {
+			o := ss.hit(hc)
+			st.Add(opLine(hc), implLine(hc, o))
+			s.Case(fmt.Sprint("replay", i), true)
+			oracleSeq(s, in.Hits[:i+1], hc, o)
+		}
 		st.Diff(c.Driver, s)
-		s.Case("replay", true)
-		oracle(s, hc, o)
 		return
 	}
 	r := kit.NewRng(c.Seed)
@@ -886,23 +936,64 @@ func runC06(c *run.Ctx, s *kit.Summary) {
 		st.Diff(c.Driver, s)
 		st = &kit.Stream{Name: "c06.hit"}
 	}
-	for i := 0; i < n; i++ {
-		hc := genCase(r)
-		if i == 0 {
-			// former defect witness (DESIGN §8 #7, fixed by bc20399) replayed first as a regression guard: 11-byte body failing after 5 bytes
-			hc = &hitCase{Method: "POST", URL: "http://witness.test/", Body: []byte("abc"), MaxBody: -1, RedirSet: true, Redirects: 10, Seq: 1,
-				Final: &respSpec{Status: 200, StatusText: "200 OK", Body: []byte("hello world"), FailAfter: 5, ReadErr: "unexpected EOF"}}
-		}
-		o := runHit(hc)
+	one := func(ss *session, sofar []*hitCase, hc *hitCase, sample bool) {
+		o := ss.hit(hc)
 		op := opLine(hc)
 		impl := implLine(hc, o)
 		st.Add(op, impl)
 		s.Case(op, o.ft.first != nil)
 		classify(s, hc, o)
-		if i < 3 {
+		if sample {
 			s.Sample(map[string]interface{}{"op": "c06.hit", "case": hc, "impl": impl})
 		}
-		oracle(s, hc, o)
+		oracleSeq(s, sofar, hc, o)
+	}
+	// fixed cases first: the former defect witness (DESIGN §8 #7, fixed by bc20399: 11-byte body
+	// failing after 5 bytes) and bodies that straddle 64 KiB / exceed 1 MiB, captured and drained
+	big := func(n int, maxBody int64, failAfter int) *hitCase {
+		return &hitCase{Method: "GET", URL: "http://big.test/", MaxBody: maxBody, RedirSet: true, Redirects: 10, Seq: 7,
+			Final: &respSpec{Status: 200, StatusText: "200 OK", Body: randBytes(r, n), FailAfter: failAfter, ReadErr: "reset"}, Chunks: []int{20000, 4096}}
+	}
+	fixed := []*hitCase{
+		{Method: "POST", URL: "http://witness.test/", Body: []byte("abc"), MaxBody: -1, RedirSet: true, Redirects: 10, Seq: 1,
+			Final: &respSpec{Status: 200, StatusText: "200 OK", Body: []byte("hello world"), FailAfter: 5, ReadErr: "unexpected EOF"}},
+		big(65535, -1, -1), big(65536, 65536, -1), big(65537, 65536, -1), big(70000, 10, -1), big(70000, 10, 69999),
+		big(1<<20+3, -1, -1), big(1<<20+3, 5, -1), big(1<<20+3, 1<<20, 1<<20+2),
+	}
+	for _, hc := range fixed {
+		one(newSession(hc), []*hitCase{hc}, hc, false)
+		s.Count("fixed:witness_and_big_bodies")
+	}
+	for i := 0; i < n; {
+		hc := genCase(r)
+		k := 1
+		if r.Chance(0.3) {
+			k = 2 + r.Pick(5)
+		}
+		if r.Chance(0.1) {
+			hc.Seq = ^uint64(0) - uint64(r.Pick(3)) // the sequence counter wraps within the sequence
+		}
+		ss := newSession(hc)
+		var sofar []*hitCase
+		for j := 0; j < k; j++ {
+			h := hc
+			if j > 0 {
+				// same attacker and attack: configuration, name and the running sequence number are shared
+				h = genCase(r)
+				h.MaxBody, h.Chunked, h.RedirSet, h.Redirects, h.Name = hc.MaxBody, hc.Chunked, hc.RedirSet, hc.Redirects, hc.Name
+				h.Seq = hc.Seq + uint64(j)
+				if r.Chance(0.3) { // an empty field right after a non-empty one
+					h.Body, h.Header = nil, nil
+				}
+				s.Count("sequence:later_hit")
+			}
+			sofar = append(sofar, h)
+			one(ss, sofar, h, i < 3)
+			i++
+		}
+		if k > 1 {
+			s.Count(fmt.Sprintf("sequence:len=%d", k))
+		}
 		if len(st.Ops) >= 20000 {
 			flush()
 		}
@@ -934,4 +1025,7 @@ func runC06(c *run.Ctx, s *kit.Summary) {
 		}
 	}
 	gr.Diff(c.Driver, s)
+
+	// the command's glue: real `vegeta attack` runs against a local server
+	runE2E(c, s)
 }
